@@ -10,7 +10,17 @@ from collections import defaultdict, namedtuple
 from cfg import cfg_of
 from facts import callee, norm, op_local
 
-Origin = namedtuple('Origin', 'kind key path bb')
+_Origin = namedtuple('Origin', 'kind key path bb')
+
+
+def _is_mark(e):
+    return isinstance(e, str) and e.startswith('@')
+
+
+def Origin(kind, key, path, bb):
+    """(access paths may carry `@Variant` markers while a place is being resolved - "the value seen through a downcast to that
+    variant"; finished origins do not show them)"""
+    return _Origin(kind, key, tuple(e for e in path if not _is_mark(e)), bb)
 # kind: 'param' key=index | 'const' key=value | 'call' key=callee path | 'agg' key=name
 #       | 'upvar' key=field index | 'op' key=operator (arithmetic result) | 'unknown'
 
@@ -473,6 +483,8 @@ class Flow:
                     ap.append(e['name'] if e['name'] != '' else str(e['f']))
                 elif 'idx' in e or 'cidx' in e or 'sub' in e:
                     ap.append('[]')
+                elif 'dc' in e and e.get('name'):
+                    ap.append('@' + e['name'])
         self._orig_local(p['l'], tuple(ap) + path, out, seen, interproc, depth, mut_calls)
 
     def _orig_local(self, l, path, out, seen, interproc, depth, mut_calls):
@@ -484,6 +496,7 @@ class Flow:
         if 1 <= l <= b.argc:
             # closures/coroutines: _1 is the environment; field k of it is upvar k
             if b.kind in ('closure', 'coroutine') and l == 1:
+                path = tuple(e for e in path if not _is_mark(e))
                 if path:
                     out.add(Origin('upvar', path[0], path[1:], None))
                 else:
@@ -507,6 +520,8 @@ class Flow:
             dpath = tuple(dpath)
             sub = path
             if dpath:
+                path = tuple(e for e in path if not _is_mark(e))
+                sub = path
                 if path[:len(dpath)] == dpath:
                     sub = path[len(dpath):]
                 elif dpath[:len(path)] == path:
@@ -561,6 +576,10 @@ class Flow:
             self._orig_place(rv['p'], path, out, seen, interproc, depth, mut_calls)
         elif k == 'agg':
             ak = rv['ak']
+            while path and _is_mark(path[0]):
+                if ak == 'adt' and rv.get('vname') and rv['vname'] not in path[0][1:].split('|'):
+                    return          # seen through a downcast to another variant: this aggregate is not what is read
+                path = path[1:]
             if ak == 'adt' and path:
                 fields = rv.get('fields', [])
                 names = [f if f != '' else str(i) for i, f in enumerate(fields)]
@@ -597,6 +616,16 @@ class Flow:
 
     def _orig_call(self, t, path, out, seen, interproc, depth, bb, mut_calls):
         c = callee(t)
+        if path and _is_mark(path[0]) and ((c or '').endswith('Try::branch') or 'Try>::branch' in (c or '')):
+            # ControlFlow::Continue(v) <- Ok(v) / Some(v);  ControlFlow::Break(r) <- Err / None
+            path = ({'@Continue': '@Ok|Some', '@Break': '@Err|None'}.get(path[0], path[0]),) + tuple(path[1:])
+        if path and _is_mark(path[0]):
+            if (c or '').endswith('from_residual') and path[0] in ('@Ok', '@Some', '@Continue', '@Ok|Some'):
+                return      # `?` hands on the residual (Err / None): never the value read through a downcast to the success variant
+            if c in IDENTITY_CALLS or c in COMBINATOR_CALLS or c in POLL_CALLS:
+                pass        # the marker travels with the value
+            else:
+                path = tuple(e for e in path if not _is_mark(e))
         if c in IDENTITY_CALLS and t['args']:
             for x in self.origins(t['args'][0], path, depth, interproc, seen, mut_calls):
                 out.add(x)
